@@ -356,6 +356,38 @@ Section Components.
   (* ---- what lift_ok means geometrically ----
      For a wrap pair along ax (l at index 0, h at index N ax - 1, equal indices elsewhere) the lifted
      cells are face neighbours along ax (lifted h + e_ax = lifted l) iff kappa h = kappa l - e_ax. *)
+  Lemma lift_adjacent_axis (kappa : nat -> nat -> Z) (l h : cellT) (ax a : nat) :
+    N a <> 0%Z ->
+    coord l ax == 0 -> coord h ax == inject_Z (N ax) - 1 ->
+    (a <> ax -> coord h a == coord l a) ->
+    (coord h a + inject_Z (kappa (lab h) a * N a) + inject_Z (delta a ax)
+       == coord l a + inject_Z (kappa (lab l) a * N a)
+     <-> kappa (lab h) a = (kappa (lab l) a - delta a ax)%Z).
+  Proof.
+    intros HN Hl Hh Hother.
+    assert (Hd1 : delta ax ax = 1%Z) by (unfold delta; rewrite Nat.eqb_refl; reflexivity).
+    assert (Hd0 : a <> ax -> delta a ax = 0%Z).
+    { intros Hne. unfold delta. destruct (Nat.eqb_spec a ax); [contradiction|reflexivity]. }
+    split; intros H.
+    - destruct (Nat.eq_dec a ax) as [Ea|Hne].
+      + subst a. rewrite Hd1 in *. rewrite Hl, Hh in H. change (inject_Z 1) with 1 in H.
+        assert (E : inject_Z ((kappa (lab h) ax + 1) * N ax) == inject_Z (kappa (lab l) ax * N ax)).
+        { rewrite Z.mul_add_distr_r, inject_Z_plus, Z.mul_1_l.
+          revert H. generalize (inject_Z (kappa (lab h) ax * N ax)), (inject_Z (kappa (lab l) ax * N ax)),
+                               (inject_Z (N ax)).
+          intros u v w H. clear - H. lra. }
+        apply (proj1 (inject_Z_injective _ _)) in E. apply Z.mul_cancel_r in E; [lia|exact HN].
+      + rewrite (Hd0 Hne) in *. rewrite (Hother Hne) in H. change (inject_Z 0) with 0 in H.
+        assert (E : inject_Z (kappa (lab h) a * N a) == inject_Z (kappa (lab l) a * N a)).
+        { revert H. generalize (inject_Z (kappa (lab h) a * N a)), (inject_Z (kappa (lab l) a * N a)).
+          intros u v H. clear - H. lra. }
+        apply (proj1 (inject_Z_injective _ _)) in E. apply Z.mul_cancel_r in E; [lia|exact HN].
+    - rewrite H. destruct (Nat.eq_dec a ax) as [Ea|Hne].
+      + subst a. rewrite Hd1. rewrite Hl, Hh. rewrite Z.mul_sub_distr_r, Z.mul_1_l.
+        unfold Z.sub. rewrite inject_Z_plus, inject_Z_opp. change (inject_Z 1) with 1. ring.
+      + rewrite (Hd0 Hne). rewrite (Hother Hne). rewrite Z.sub_0_r. change (inject_Z 0) with 0. ring.
+  Qed.
+
   Lemma lift_adjacent (kappa : nat -> nat -> Z) (l h : cellT) (ax : nat) :
     (forall a, N a <> 0%Z) ->
     coord l ax == 0 -> coord h ax == inject_Z (N ax) - 1 ->
@@ -365,27 +397,7 @@ Section Components.
      <-> (forall a, kappa (lab h) a = (kappa (lab l) a - delta a ax)%Z)).
   Proof.
     intros HN Hl Hh Hother.
-    assert (Hd1 : delta ax ax = 1%Z) by (unfold delta; rewrite Nat.eqb_refl; reflexivity).
-    assert (Hd0 : forall a, a <> ax -> delta a ax = 0%Z).
-    { intros a Hne. unfold delta. destruct (Nat.eqb_spec a ax); [contradiction|reflexivity]. }
-    split; intros H a.
-    - specialize (H a). destruct (Nat.eq_dec a ax) as [Ea|Hne].
-      + subst a. rewrite Hd1 in *. rewrite Hl, Hh in H. change (inject_Z 1) with 1 in H.
-        assert (E : inject_Z ((kappa (lab h) ax + 1) * N ax) == inject_Z (kappa (lab l) ax * N ax)).
-        { rewrite Z.mul_add_distr_r, inject_Z_plus, Z.mul_1_l.
-          revert H. generalize (inject_Z (kappa (lab h) ax * N ax)), (inject_Z (kappa (lab l) ax * N ax)),
-                               (inject_Z (N ax)).
-          intros u v w H. clear - H. lra. }
-        apply (proj1 (inject_Z_injective _ _)) in E. apply Z.mul_cancel_r in E; [lia|apply HN].
-      + rewrite (Hd0 a Hne) in *. rewrite (Hother a Hne) in H. change (inject_Z 0) with 0 in H.
-        assert (E : inject_Z (kappa (lab h) a * N a) == inject_Z (kappa (lab l) a * N a)).
-        { revert H. generalize (inject_Z (kappa (lab h) a * N a)), (inject_Z (kappa (lab l) a * N a)).
-          intros u v H. clear - H. lra. }
-        apply (proj1 (inject_Z_injective _ _)) in E. apply Z.mul_cancel_r in E; [lia|apply HN].
-    - rewrite (H a). destruct (Nat.eq_dec a ax) as [Ea|Hne].
-      + subst a. rewrite Hd1. rewrite Hl, Hh. rewrite Z.mul_sub_distr_r, Z.mul_1_l.
-        unfold Z.sub. rewrite inject_Z_plus, inject_Z_opp. change (inject_Z 1) with 1. ring.
-      + rewrite (Hd0 a Hne). rewrite (Hother a Hne). rewrite Z.sub_0_r. change (inject_Z 0) with 0. ring.
+    split; intros H a; apply (lift_adjacent_axis kappa l h ax a (HN a) Hl Hh (Hother a)); apply H.
   Qed.
 End Components.
 
@@ -395,3 +407,4 @@ Print Assumptions components_volume_list.
 Print Assumptions components_position.
 Print Assumptions components_position_list.
 Print Assumptions lift_adjacent.
+Print Assumptions lift_adjacent_axis.
